@@ -202,6 +202,28 @@ fn random_grammar(rng: &mut Rng, name: &str) -> (String, Vec<&'static str>) {
             prec_left(1, seq(vec![field("left", e()), opf("+"), field("right", e())])),
             prec_left(2, seq(vec![field("left", e()), opf("*"), field("right", e())]))])));
     }
+    // two differently shaped rules merged into ONE node type through an alias: `alias($.v_X, $.X)`;
+    // the variant may be childless, have other fields, the same field with another type, or repeats
+    if rng.chance(1, 2) {
+        let names: Vec<String> = items.iter().filter_map(|v| v["name"].as_str().map(|x| x.to_string())).collect();
+        for _ in 0..rng.range(1, 2) {
+            let target = rng.pick(&names).clone();
+            let vname = format!("v_{target}");
+            if rules.iter().any(|(n, _)| *n == vname) { continue; }
+            let kw = format!("v{}", target.replace('_', ""));
+            let body = match rng.below(6) {
+                0 => seq(vec![lit(&kw), lit(";")]),
+                1 => seq(vec![lit(&kw), sym("identifier"), lit(";")]),
+                2 => seq(vec![lit(&kw), field("extra", sym("number")), lit(";")]),
+                3 => seq(vec![lit(&kw), field(*rng.pick(&["name", "value", "body", "cond", "attr"]), sym("number")), lit(";")]),
+                4 => seq(vec![lit(&kw), rep(sym("number")), lit(";")]),
+                _ => seq(vec![lit(&kw), opt(field("name", sym("identifier"))), opt(sym("number")), lit(";")]),
+            };
+            rules.push((vname.clone(), body));
+            items.push(alias(sym(&vname), &target, true));
+            feats.push("alias-merged-node-type");
+        }
+    }
     rules.push((expr_name.into(), choice(alts)));
     if expr_mode == 0 { supertypes.push(json!("_expr")); feats.push("supertype"); }
     let item_super = rng.chance(1, 3);
